@@ -81,6 +81,29 @@ CLAIMED = {
         note="Lengths bounded (3 samples for conversions, stride 34 for the 32-way unrolled de-interleavers, capacity 2..3 for the buffer equivalence); values complete.",
         technique=KANI + " + " + VERUS,
         design_ref="6 C14"),
+    "C07": dict(
+        category="proof",
+        text=("verify().is_ok() <=> every own field in its documented range /\\ every child verifies, proved struct by struct for Prc, "
+              "OrderSel, Window (every f32 bit pattern incl. NaN/inf), Fixed, Qlpc, StereoCoding, SubFrameCoding, Encoder with the "
+              "children's verdicts as symbolic callee contracts (Kani, complete), plus the real chain Encoder -> .. -> OrderSel; accepted "
+              "=> the consumers' assertions hold: fingerprint_window, quantize_parameters/find_shift ranges, estimate_entropy "
+              "(no division by zero / out-of-bounds for 1..=64 partitions), encode_subframe never calls a disabled generator."),
+        note=("'encodes every valid input losslessly' is C01; the finite-ness asserts inside the float LPC estimator are assumed (A-float); "
+              "CBMC's log2/fma models are replaced by range contracts in the estimate_entropy units; experimental options: the "
+              "non-experimental build is the verified configuration."),
+        technique=KANI,
+        design_ref="6 C07"),
+    "C10": dict(
+        category="proof",
+        text=("History independence = each scratch buffer's user produces its specified result from ARBITRARY previous buffer contents: "
+              "fixed-predictor error vectors, mid/side frame buffer, SIMD cast buffer (reset_from_slice), de-interleave destination, "
+              "frame-buffer refill (full block then shorter), scratch sinks (clear), frame CRC buffer (Verus frame_write quantifies over an "
+              "arbitrary incoming buffer); the window cache key is injective on (size, window) over all f32 alphas."),
+        note=("Bounded sizes for the dirty-buffer units (previous block of 16/32 samples etc.); PrcParameterFinder::find and the float "
+              "LpcEstimator buffers are argued from clear/resize/fill semantics, not under contract; other threads: thread_local storage "
+              "is per thread by construction (Rust TLS)."),
+        technique=KANI + " + " + VERUS,
+        design_ref="6 C10"),
     "C11": dict(
         category="proof",
         text=("Every sink operation of both in-memory sinks (write/write_msbs/write_lsbs for u8..u64, every n from 0 "
